@@ -45,6 +45,8 @@ pub proof fn lemma_gk_user_order(a: GKey, b: GKey)
 }
 
 /// every entry of a block before `i` is below k_{i'} <= ... ; every entry of a later block is above k_i
+#[verifier::rlimit(80)]
+#[verifier::spinoff_prover]
 pub proof fn lemma_tm_block_order(m: TM, i: int, i2: int, j2: int)
     requires tm_wf(m), 0 <= i < i2 < m.blocks.len(), 0 <= j2 < m.blocks[i2].len()
     ensures gk_lt(m.keys[i], m.blocks[i2][j2].k)
@@ -210,6 +212,52 @@ pub proof fn lemma_tm_block_without_user(m: TM, t: GKey, i: int)
                 lemma_lex_eq(u, e2.user);
             }
         }
+    }
+}
+
+/// position (i2, j2) comes before (i, j) in table order
+pub open spec fn tm_before(i2: int, j2: int, i: int, j: int) -> bool { i2 < i || (i2 == i && j2 < j) }
+
+/// Seek: index lower bound `i`, block lower bound `j` in block i (j == len: ran off the block).
+pub proof fn lemma_tm_seek_position(m: TM, t: GKey, i: int, j: int)
+    requires
+        tm_wf(m), 0 <= i < m.keys.len(),
+        forall|i1: int| 0 <= i1 < i ==> gk_lt(#[trigger] m.keys[i1], t),
+        !gk_lt(m.keys[i], t),
+        0 <= j <= m.blocks[i].len(),
+        forall|j1: int| 0 <= j1 < j ==> gk_lt(#[trigger] m.blocks[i][j1].k, t),
+        j < m.blocks[i].len() ==> !gk_lt(m.blocks[i][j].k, t),
+    ensures
+        forall|i2: int, j2: int| 0 <= i2 < m.blocks.len() && 0 <= j2 < m.blocks[i2].len() && tm_before(i2, j2, i, j)
+            ==> gk_lt(#[trigger] m.blocks[i2][j2].k, t),
+        i + 1 < m.blocks.len() ==> !gk_lt(m.blocks[i + 1][0].k, t),
+{
+    reveal(tm_wf);
+    assert forall|i2: int, j2: int| 0 <= i2 < m.blocks.len() && 0 <= j2 < m.blocks[i2].len() && tm_before(i2, j2, i, j)
+        implies gk_lt(#[trigger] m.blocks[i2][j2].k, t) by {
+        if i2 < i {
+            assert(gk_le(m.blocks[i2][j2].k, m.keys[i2]));
+            lemma_gk_trans(m.blocks[i2][j2].k, m.keys[i2], t);
+        }
+    }
+    if i + 1 < m.blocks.len() {
+        let f = m.blocks[i + 1][0].k;
+        assert(gk_lt(m.keys[i], f));
+        lemma_gk_antisym(m.keys[i], t);
+        lemma_gk_antisym(f, t);
+        if gk_lt(f, t) { lemma_gk_trans(m.keys[i], f, t); }
+    }
+}
+
+/// Index seek ran off the end: every entry of the table is below the seek key.
+pub proof fn lemma_tm_all_smaller(m: TM, t: GKey)
+    requires tm_wf(m), forall|i: int| 0 <= i < m.keys.len() ==> gk_lt(#[trigger] m.keys[i], t)
+    ensures forall|i2: int, j2: int| 0 <= i2 < m.blocks.len() && 0 <= j2 < m.blocks[i2].len() ==> gk_lt(#[trigger] m.blocks[i2][j2].k, t)
+{
+    reveal(tm_wf);
+    assert forall|i2: int, j2: int| 0 <= i2 < m.blocks.len() && 0 <= j2 < m.blocks[i2].len() implies gk_lt(#[trigger] m.blocks[i2][j2].k, t) by {
+        assert(gk_le(m.blocks[i2][j2].k, m.keys[i2]));
+        lemma_gk_trans(m.blocks[i2][j2].k, m.keys[i2], t);
     }
 }
 
